@@ -301,6 +301,43 @@ func (rw *rewriter) isAtomicCall(n ast.Node) bool {
 	return found
 }
 
+// hasRepoIfaceCall: does the node call a method through an interface that the repository
+// itself (or its generated protobuf package) declares - an RPC stub, a stream, the raft
+// group or the log store? Such a call is where a request leaves the goroutine's hands:
+// what it passes must not be shared with a sibling that is still preparing its own.
+func (rw *rewriter) hasRepoIfaceCall(n ast.Node) bool {
+	found := false
+	ast.Inspect(n, func(x ast.Node) bool {
+		if found {
+			return false
+		}
+		if _, ok := x.(*ast.FuncLit); ok {
+			return false
+		}
+		ce, ok := x.(*ast.CallExpr)
+		if !ok {
+			return true
+		}
+		se, ok := ce.Fun.(*ast.SelectorExpr)
+		if !ok {
+			return true
+		}
+		sel := rw.pkg.TypesInfo.Selections[se]
+		if sel == nil || sel.Kind() != types.MethodVal {
+			return true
+		}
+		recv := sel.Recv()
+		if _, isIface := recv.Underlying().(*types.Interface); !isIface {
+			return true
+		}
+		if named, ok := recv.(*types.Named); ok && named.Obj().Pkg() != nil && strings.HasPrefix(named.Obj().Pkg().Path(), "github.com/marekgalovic/anndb") {
+			found = true
+		}
+		return true
+	})
+	return found
+}
+
 func hasRecv(n ast.Node) bool {
 	found := false
 	ast.Inspect(n, func(x ast.Node) bool {
@@ -346,7 +383,7 @@ func (rw *rewriter) yields(f *ast.File, index bool) bool {
 					_ = st
 				default:
 					for _, h := range header(inner) {
-						if hasRecv(h) {
+						if hasRecv(h) || rw.hasRepoIfaceCall(h) {
 							before = true
 						}
 					}
